@@ -3,14 +3,14 @@ CONSTANTS
   Parties = {"p1", "p2", "p3"}
   Creator = "p1"
   MaxCommits = 3
-  MaxProps = 2
-  MaxKps = 2
-  MaxEpoch = 3
+  MaxProps = 0
+  MaxKps = 1
+  MaxEpoch = 2
   PathRequiredChoices = {FALSE}
   EncChoices = {FALSE}
   ByValueMax = 1
   AllowConflicts = FALSE
-  Features = {}
+  Features = {"detached"}
   Window = 2
   Retention = 2
   BurstSizes = {1, 2}
